@@ -272,6 +272,10 @@ pub fn run(
                 // no faults are injected here: the database refused a write
                 let bad = sess.bad_state();
                 outcome.degenerate = Some(format!("write failed: {e}; sticky state: {bad:?}"));
+                // the refusal itself is not judged here, but whatever refused must have left the
+                // writers' queue usable: one more write, under the watchdog (its result is ignored)
+                let _ = sess.write(vec![(b"~after-refused-write".to_vec(), Some(b"x".to_vec()))]);
+                out.add("writes_after_a_refused_write", 1);
                 break;
             }
         }
